@@ -28,7 +28,11 @@ THEOREMS = ["GmqttVerif.Limiter.poll_ids_nonzero_distinct_unmarked",
             "GmqttVerif.Broker.reachable_msgs_inv",
             # the retransmission clause rests on the session queue keeping every handed-out entry until it is removed
             "GmqttVerif.Queue.replay_after_init", "GmqttVerif.Queue.exactly_one_place"]
-EXTRA_MODULES = ['GmqttVerif.Properties.C03Broker', 'GmqttVerif.Properties.C10']
+# pkg/bitmap is not transcribed but TRANSLATED: Generated/BitmapT.lean is regenerated from bitmap.go on every run and proved equal
+# to Model/Bitmap.lean (Properties/C03Translated.lean)
+THEOREMS += ["GmqttVerif.C03Translated." + t for t in ("new_eq", "set_eq", "set_result", "get_eq", "size_eq")]
+NEEDS_FACTS = ["BitmapT"]
+EXTRA_MODULES = ['GmqttVerif.Properties.C03Broker', 'GmqttVerif.Properties.C10', 'GmqttVerif.Properties.C03Translated']
 COMPS = ["limiter", "broker", "queue"]
 MAXID = 65535
 
